@@ -26,8 +26,9 @@ Proof.
   intros He Hmax. unfold BinaryProtocol_next. cbv zeta.
   destruct (Z.leb_spec (blen e) 0); [lia|].
   pose proof (blen_nonneg buf). change (2 ^ 63) with 9223372036854775808 in Hmax.
-  rewrite wraps_small by (try change (2 ^ (64 - 1)) with 9223372036854775808; lia).
-  rewrite blen_app. destruct (Z.gtb_spec (blen buf + blen e) (blen buf + blen e)); [lia|]. reflexivity.
+  rewrite blen_app.
+  rewrite !wraps_small by (try change (2 ^ (64 - 1)) with 9223372036854775808; lia).
+  destruct (Z.gtb_spec (blen e) (blen buf + blen e - blen buf)); [lia|]. reflexivity.
 Qed.
 
 Lemma varint_len_pos v : 0 < blen (varint_enc v).
